@@ -13,14 +13,18 @@ o=[]
 if '-race' in f and 'not needed' not in f: o.append('-race')
 if 'checkptr' in f: o.append('-gcflags=all=-d=checkptr')
 print(' '.join(o))")
+demo_env=$(python3 -c "
+import json
+f=str(json.load(open('$dir/meta.json')).get('demo_flags',''))
+print('GOARCH=386' if 'GOARCH=386' in f else '')")
 wt="$(mktemp -d /tmp/vp-confirm-XXXXXX)"; rmdir "$wt"
 git -C /repo worktree add -q --detach "$wt" HEAD || exit 2
 trap 'git -C /repo worktree remove --force "$wt" 2>/dev/null; rm -rf "$wt"' EXIT
 cp "$dir/demo_test.go" "$wt/zz_seed_demo_test.go"
 res=""
-if (cd "$wt" && "$VGO" test $flags -vet=off -count=1 -run "^${test_name}\$" . >/dev/null 2>&1); then res="clean:pass"; else res="clean:FAIL"; fi
+if (cd "$wt" && env $demo_env "$VGO" test $flags -vet=off -count=1 -run "^${test_name}\$" . >/dev/null 2>&1); then res="clean:pass"; else res="clean:FAIL"; fi
 if git -C "$wt" apply "$dir/patch.diff" 2>/dev/null; then res="$res apply:ok"; else echo "$(basename $dir) $res apply:FAIL"; exit 1; fi
-if (cd "$wt" && "$VGO" test $flags -vet=off -count=1 -run "^${test_name}\$" . >/dev/null 2>&1); then res="$res mutant-demo:pass(BAD)"; else res="$res mutant-demo:fail"; fi
+if (cd "$wt" && env $demo_env "$VGO" test $flags -vet=off -count=1 -run "^${test_name}\$" . >/dev/null 2>&1); then res="$res mutant-demo:pass(BAD)"; else res="$res mutant-demo:fail"; fi
 rm "$wt/zz_seed_demo_test.go"
 if (cd "$wt" && "$VGO" test -vet=off -count=1 ./... >/dev/null 2>&1); then res="$res suite:pass"; else res="$res suite:FAIL"; fi
 echo "$(basename $dir) $res"
